@@ -124,6 +124,14 @@ class CircuitGate(Gate):
                 f'p{i}'
                 for i in range(param_index, param_index + op.num_params)
             ]
+            frozen = getattr(op.gate, 'frozen_params', None)
+            if frozen is not None:
+                # Print the frozen values between the free parameters
+                free = iter(params)
+                params = [
+                    str(frozen[i]) if i in frozen else next(free)
+                    for i in range(op.gate.gate.num_params)
+                ]
             if isinstance(op.gate, CircuitGate):
                 op_id = hash(op.gate)
                 if op_id < 0:
